@@ -173,6 +173,21 @@ def run(res, tier, seed, driver_ok):
         e = float(np.abs(backb - Wb).max()) / float(np.linalg.norm(Wb))
         if not e <= 1e-8:
             bad('body-back:%s' % mode, 'staticForcesInvBody(staticForcesBody(Wb)) differs from Wb', i2, e)
+        # the same balance read through the DEFAULTED queries, in both interfaces, with a different wrench each time: the legs' summed wrench
+        # on the base is the negative of the wrench applied LAST (the platform remembers the forces of its last statics call)
+        try:
+            Wa = np.array([rnd.uniform(-10, 10) for _ in range(6)]); Wc = np.array([rnd.uniform(-10, 10) for _ in range(6)])
+            with contextlib.redirect_stdout(io.StringIO()):
+                sp.staticForces(Wrench(Wa.copy()))
+                s_space = np.asarray(sp.sumActuatorWrenches().data, dtype=float).reshape(-1)
+                sp.staticForcesBody(Wrench((armh.Ad(Tt).T @ Wc).copy()))
+                s_body = np.asarray(sp.sumActuatorWrenches().data, dtype=float).reshape(-1)
+            for nm_, got_, want_ in (('space', s_space, -Wa), ('body', s_body, -Wc)):
+                if not float(np.abs(got_ - want_).max()) <= 1e-8 * float(np.linalg.norm(want_)):
+                    bad('base-wrench-default:%s' % nm_, 'after a %s-frame statics call, sumActuatorWrenches() (defaulted) is not the negative of the wrench just applied' % nm_,
+                        dict(inp, wrench=list(Wa if nm_ == 'space' else Wc)), {'got': got_.tolist(), 'want': want_.tolist()})
+        except Exception as e:
+            bad('raises:statics-default:%s' % type(e).__name__, 'a defaulted force query raised', inp, repr(e)[:200])
         grav = np.asarray(sp.grav, dtype=float).reshape(-1)
 
         def wrench_at(p, m):
